@@ -219,13 +219,16 @@ def multiclassCM (cfgVocab : Option Vocab) (multioutput : Bool) (avg : Average) 
 
 /-! ## top-k (`_apply_vocab_at_k`, `_topk_confusion_matrix`, lines 665–726) -/
 
+/-- `result[i][vocab[row[j]]] = True` if the row has a `j`-th prediction -/
+def topkCell (v : Vocab) (r : List Bool) : Option Label → Except ErrKind (List Bool)
+  | none => .ok r
+  | some e => vocabStep v r e
+
 /-- one round `j` of the loop of `_apply_vocab_at_k`: the cells switched on in round `j` -/
 def topkRound (v : Vocab) (multioutput : Bool) (j : Nat) (cur : List (List Bool))
     (rows : List (List Label)) : Except ErrKind (List (List Bool)) :=
-  (cur.zip rows).mapM fun (r, row) =>
-    match (if multioutput then row[j]? else if j = 0 then row[0]? else none) with
-    | none => .ok r
-    | some e => do let c ← v.lookup e; setCell r c
+  (cur.zip rows).mapM fun x =>
+    topkCell v x.1 (if multioutput then x.2[j]? else if j = 0 then x.2[0]? else none)
 
 /-- `k_list = set(k_list)` then `j + 1 in k_list` -/
 def kMember (kList : List Int) (k : Nat) : Bool := kList.contains (k : Int)
@@ -491,21 +494,18 @@ def getResult (sqrt : Rat → Rat) (c : Cfg) (st : Option CMArr) : Except ErrKin
 
 /-! ## `SamplewiseClassification` (lines 776–889) -/
 
-/-- `utils.MeanState` per metric: `(total, count)` -/
-abbrev SwState := List (Metric × Rat × Nat)
+/-- `_state: defaultdict(MeanState)`: observationally a total map metric ↦ `(total, count)` with
+default `MeanState() = (0, 0)` (a missing key and a `(0, 0)` entry cannot be told apart: `result()`
+reads `self._state[metric]`, `merge` only adds) -/
+abbrev SwState := Metric → Rat × Nat
 
-def SwState.get (s : SwState) (m : Metric) : Rat × Nat :=
-  match s.find? (·.1 == m) with
-  | some (_, tc) => tc
-  | none => (0, 0)
+def SwState.empty : SwState := fun _ => (0, 0)
 
-def SwState.set (s : SwState) (m : Metric) (tc : Rat × Nat) : SwState :=
-  if s.any (·.1 == m) then s.map fun e => if e.1 == m then (m, tc) else e else s ++ [(m, tc)]
+def SwState.get (s : SwState) (m : Metric) : Rat × Nat := s m
 
 /-- `MeanState.merge` into the entry of `m` (created on demand by the `defaultdict`) -/
 def SwState.mergeIn (s : SwState) (m : Metric) (tc : Rat × Nat) : SwState :=
-  let cur := s.get m
-  s.set m (cur.1 + tc.1, cur.2 + tc.2)
+  fun m' => if m' = m then ((s m').1 + tc.1, (s m').2 + tc.2) else s m'
 
 /-- the per-example scores of one batch for one metric (`derive_metric(metric)` with the default
 `average=None` on the samples-averaged confusion matrix) -/
@@ -515,18 +515,22 @@ def swScores (sqrt : Rat → Rat) (cm : CMArr) (m : Metric) : Except ErrKind (Li
   | .val (.v xs) => pure (xs.filterMap id)
   | .val _ => throw .other
 
+/-- one iteration of the loop of `add`: `result[metric] = score; self._state[metric].add(score)`
+with `MeanState.add(score)` = `merge(new(score))`, `new` = `(sum(score), len(score))` -/
+def swStep (sqrt : Rat → Rat) (cm : CMArr) (acc : List (Metric × List Rat) × SwState) (m : Metric) :
+    Except ErrKind (List (Metric × List Rat) × SwState) := do
+  let xs ← swScores sqrt cm m
+  pure (acc.1 ++ [(m, xs)], acc.2.mergeIn m (xs.foldl (· + ·) 0, xs.length))
+
 /-- `SamplewiseClassification.add` (lines 862–874): returns the per-example scores, updates the state -/
 def swAdd (sqrt : Rat → Rat) (c : Cfg) (st : SwState) (b : Batch) :
     Except ErrKind (List (Metric × List Rat) × SwState) := do
   let cm ← batchCM c b
-  c.metrics.foldlM (fun (acc : List (Metric × List Rat) × SwState) m => do
-    let xs ← swScores sqrt cm m
-    -- `MeanState.add(score)`: `merge(new(score))`, `new` = `(sum(score), len(score))`
-    pure (acc.1 ++ [(m, xs)], acc.2.mergeIn m (xs.foldl (· + ·) 0, xs.length))) ([], st)
+  c.metrics.foldlM (swStep sqrt cm) ([], st)
 
-/-- `SamplewiseClassification.merge` (lines 880–882) -/
-def swMerge (a b : SwState) : SwState :=
-  b.foldl (fun acc e => acc.mergeIn e.1 e.2) a
+/-- `SamplewiseClassification.merge` (lines 880–882): `for key, value in other.state.items():
+self._state[key].merge(value)` — entry-wise addition (keys `other` does not have add nothing) -/
+def swMerge (a b : SwState) : SwState := fun m => ((a m).1 + (b m).1, (a m).2 + (b m).2)
 
 /-- `safe_divide(total, count)` -/
 def meanStateResult (tc : Rat × Nat) : Rat := if tc.2 = 0 then 0 else tc.1 / (tc.2 : Rat)
